@@ -6,6 +6,7 @@ from .. import astq
 from .. import sym as S
 from ..cfg import CFG, walk_no_defs, header_walk
 from ..dataflow import ReachingDefs, containing_node
+from ..report import MISSING
 from ..model import AnalysisError, ClassInfo, FunctionInfo, unparse
 from ..symeval import SymEval
 
@@ -109,7 +110,7 @@ def list_provenance(prog, f, listname, afs):
     for c in astq.func_calls(f):
         if astq.attr_call(c, "append") and astq.is_name(c.func.value, listname):
             n_app += 1
-            a = c.args[0] if c.args else None
+            a = c.args[0] if c.args else MISSING(None)
             if not (isinstance(a, ast.Call) and prog.resolve(f.module, a.func, f) is afs and len(a.args) == 2):
                 problems.append((c, "element appended to %s is not built by alias_factory_subclass_from_arg" % listname))
                 continue
